@@ -428,6 +428,7 @@ type stats struct {
 	SrcKinds map[string]int `json:"src_kinds"`
 	PtLens   map[string]int `json:"plaintext_lengths"`
 	KeyLens  map[string]int `json:"key_lengths"`
+	Rescans  int            `json:"scans_repeated_on_the_same_buffer"`
 	Merged   int            `json:"genuine_scans_merged_into_prior_value"` // json.Unmarshal merges into a non-empty map/struct receiver
 	Flips    int            `json:"bit_flips"`
 	Truncs   int            `json:"truncations"`
@@ -653,7 +654,34 @@ func run(ops []string, out *vlib.Out, st *stats) {
 			if sk == "stored" && res == "ok" && hx(col.Key()) == storedKey && col.ValTok() != storedTok {
 				st.Merged++
 			}
-			res += fmt.Sprintf(" src=%s srcty=%s open=%s dec=%s", srchex, srcty, open, dec)
+			// the stored bytes are the caller's: scanning the SAME buffer a second time must give the same answer and the
+			// same value (a Scan that decrypts in place destroys what it was given), and a restored value must not
+			// change when the caller reuses its buffer afterwards (database/sql drivers do)
+			again, alias := "na", "na"
+			if b, ok := src.([]byte); ok && !strings.HasPrefix(res, "panic") {
+				tok1 := col.ValTok()
+				var err2 error
+				if p2 := vlib.Catch(func() { err2 = col.Scan(b) }); p2 != "" {
+					again = p2
+				} else {
+					again = classify(err2)
+					if again == "ok" && res == "ok" && col.ValTok() != tok1 {
+						again = "ok:othervalue"
+					}
+				}
+				if again == "ok" {
+					tok2 := col.ValTok()
+					for i := range b {
+						b[i] ^= 0xAA
+					}
+					alias = "0"
+					if col.ValTok() != tok2 {
+						alias = "1"
+					}
+				}
+				st.Rescans++
+			}
+			res += fmt.Sprintf(" src=%s srcty=%s open=%s dec=%s again=%s alias=%s", srchex, srcty, open, dec, again, alias)
 		default:
 			panic("op " + w[0])
 		}
